@@ -188,7 +188,7 @@ func shapeOf(v Value, sb *strings.Builder) {
 		fmt.Fprintf(sb, "m%d", x.Obj)
 	case StringVal:
 		if x.Atom != nil {
-			sb.WriteByte('a')
+			sb.WriteString("a" + x.Pre + "|" + x.Suf)
 		} else {
 			fmt.Fprintf(sb, "b%d", len(x.Bytes))
 		}
